@@ -367,8 +367,8 @@ def check_C10(chk):
     if out:
         chk.add_replay(out, st, behaviours=out.get("evaluations", 0))
     spread, res3 = vlib.generate_cases(chk.work, "GenBV_spread", "GenBV",
-                                       cfg_consts({"N": 0, "Mode": '"spread"', "FamilyLens": "{130, 192}" if chk.thorough else "{130}", "RLClasses": "{}", "RLMaxRuns": 0,
-                                                   "RLTails": "{}", "SpreadPos": "{0, 1, 63, 64, 65, 127, 128, 129}", "SpreadK": 4 if chk.thorough else 3}) + GEN_TAIL)
+                                       cfg_consts({"N": 0, "Mode": '"spread"', "FamilyLens": "{128, 130, 192}" if chk.thorough else "{128, 130}", "RLClasses": "{}", "RLMaxRuns": 0,
+                                                   "RLTails": "{}", "SpreadPos": "{0, 1, 63, 64, 65, 126, 127}", "SpreadK": 4 if chk.thorough else 3}) + GEN_TAIL)
     chk.add_tlc(res3, "GenBV contents with few ones / few zeros spread over three words", {"behaviours": len(res3.replay_lines)})
     st = "replay iterator transition cover on multi-word contents (word-crossing scans)"
     out = chk.run_harness(bins["dbg-native"], ["replay", "--kind", "iter", "--cases", hist, "--contents", spread], st)
@@ -429,8 +429,8 @@ def gen_bv_sets(chk, nbits, family):
                                  cfg_consts({"N": 0, "Mode": '"family"', "FamilyLens": family, "RLClasses": "{}", "RLMaxRuns": 0, "RLTails": "{}", "SpreadPos": "{}", "SpreadK": 0}) + GEN_TAIL)
     chk.add_tlc(r2, "GenBV family %s" % family, {"behaviours": len(r2.replay_lines)})
     p3, r3 = vlib.generate_cases(chk.work, "GenBV_spread", "GenBV",
-                                 cfg_consts({"N": 0, "Mode": '"spread"', "FamilyLens": "{130}", "RLClasses": "{}", "RLMaxRuns": 0, "RLTails": "{}",
-                                             "SpreadPos": "{0, 1, 63, 64, 65, 127, 128, 129}", "SpreadK": 3}) + GEN_TAIL)
+                                 cfg_consts({"N": 0, "Mode": '"spread"', "FamilyLens": "{128, 130}", "RLClasses": "{}", "RLMaxRuns": 0, "RLTails": "{}",
+                                             "SpreadPos": "{0, 1, 63, 64, 65, 126, 127}", "SpreadK": 3}) + GEN_TAIL)
     chk.add_tlc(r3, "GenBV spread", {"behaviours": len(r3.replay_lines)})
     return p1, p2, p3
 
@@ -802,7 +802,11 @@ def check_C08(chk):
         vecs.append(pv)
     mp, rm = gen_map_streams(chk, 2)
     fp, rf = gen_streams(chk, 1)
+    msp, rms = vlib.generate_cases(chk.work, "GenMS_mem", "GenMS", cfg_consts({"MaxU": 4, "MaxVals": 4}) + GEN_TAIL)
+    chk.add_tlc(rms, "GenMS multisets (universe <= 4, <= 4 values)", {"behaviours": len(rms.replay_lines)})
     for v in variants:
+        replay_stage(chk, bins, v, ["replay", "--kind", "ms", "--cases", msp, "--histories", hist],
+                     "bounds: multiset sparse vectors: queries, iterators, conversion to a plain bitvector, %s" % v, hooks=True, oob_only=True)
         for p, label in ((p1, "bits"), (p2, "family"), (p3, "spread")):
             replay_stage(chk, bins, v, ["replay", "--kind", "bv", "--types", "plain,sparse,rl", "--cases", p],
                          "bounds: every query x extreme arguments on GenBV %s, %s" % (label, v), hooks=True, oob_only=True)
